@@ -84,6 +84,12 @@ def upcOp (toks : List String) : Option String :=
   | ["upc", "dec", h] => do
     let b ← hexToBytes h
     pure (showOut (decodeMsg b) fun (h0, h1, m) => s!"{h0.toNat} {h1.toNat} {showMsg m}")
+  | ["upc", "dec2", ha, h] => do
+    -- decode A, then B (same message type), into the same object: the sub-message is allocated afresh, so the result is B's
+    let a ← hexToBytes ha
+    let b ← hexToBytes h
+    if a.length < 2 || b.length < 2 || a.getD 1 0 != b.getD 1 0 then none
+    pure (showOut (decodeMsg b) fun (h0, h1, m) => s!"{h0.toNat} {h1.toNat} {showMsg m}")
   | ["upc", "enc", h1, m] => do
     let h1 ← h1.toNat?
     let m ← parseMsgS m
